@@ -25,9 +25,9 @@ fn fixed_c14_builtin_capacity_short_trace() {
     assert!(r.is_err());
 }
 
-/// KF C18 eval_composition_polynomial: assert!(n_pedersen_hash_copies < u128::MAX) reachable after validation (log_n_steps < 7)
+/// FIXED (0736463), regression witness (no panic any more): assert!(n_pedersen_hash_copies < u128::MAX) was reachable after validation (log_n_steps < 7)
 #[test]
-fn kf_c18_pedersen_copies_assert() {
+fn fixed_c18_pedersen_copies_assert() {
     let r = std::panic::catch_unwind(|| {
         let mut pi = public_input::get();
         pi.log_n_steps = Felt::from(6u64);
@@ -38,8 +38,8 @@ fn kf_c18_pedersen_copies_assert() {
         let _ = Layout::eval_composition_polynomial(&c.traces.interaction_elements, &pi, &mask, &coeffs,
             &Felt::from(12345u64), &d.trace_domain_size, &d.trace_generator);
     });
-    println!("KF C18a: log_n_steps = 6 (64 steps, pedersen ratio 128) -> eval_composition_polynomial panicked = {}", r.is_err());
-    assert!(r.is_err());
+    println!("fixed C18a: log_n_steps = 6 (64 steps, pedersen ratio 128) -> eval_composition_polynomial panicked = {}", r.is_err());
+    assert!(r.is_ok());
 }
 
 /// KF C18 get_public_memory_product_ratio: assert!(total_length <= public_memory_column_size) with a long main page
@@ -76,28 +76,28 @@ fn kf_c14_positional_hashing() {
     assert!(h0 == h1);
 }
 
-/// KF C18 verify_public_input: output segment longer than the main page -> slice start underflow
+/// FIXED (9ea2566), regression witness (no panic any more): output segment longer than the main page -> slice start underflow
 #[test]
-fn kf_c18_output_len_underflow() {
+fn fixed_c18_output_len_underflow() {
     let r = std::panic::catch_unwind(|| {
         let mut pi = public_input::get();
         pi.segments[2].stop_ptr = pi.segments[2].begin_addr + Felt::from(100000u64);
         let _ = Layout::verify_public_input(&pi);
     });
-    println!("KF C18c: output segment of 100000 cells -> panicked = {}", r.is_err());
-    assert!(r.is_err());
+    println!("fixed C18c: output segment of 100000 cells -> panicked = {}", r.is_err());
+    assert!(r.is_ok());
 }
 
-/// KF C18 verify_public_input: output_len * 2 overflows usize
+/// FIXED (9ea2566), regression witness (no panic any more): output_len * 2 overflowed usize
 #[test]
-fn kf_c18_output_len_overflow() {
+fn fixed_c18_output_len_overflow() {
     let r = std::panic::catch_unwind(|| {
         let mut pi = public_input::get();
         pi.segments[2].stop_ptr = pi.segments[2].begin_addr + Felt::from(u64::MAX);
         let _ = Layout::verify_public_input(&pi);
     });
-    println!("KF C18d: output segment of 2^64-1 cells -> panicked = {}", r.is_err());
-    assert!(r.is_err());
+    println!("fixed C18d: output segment of 2^64-1 cells -> panicked = {}", r.is_err());
+    assert!(r.is_ok());
 }
 
 /// FIXED (d0bb0cf), regression witness: range-check and bitwise builtins (row ratio 128): a trace of 64 rows accepted 1000 instances of each
